@@ -1041,6 +1041,16 @@ func (fx *fnExec) anchorHypotheses(st *state, in ssa.Instruction, name string, e
 		c.locals = fx.localLookup(st, in.Block())
 		v := c.eval(a.Expr)
 		fx.assume(v.term)
-		fx.assumptionsUsed[fmt.Sprintf("hypothesis [%s] of %s (side condition of the property statement): %s", a.Label, fx.g.relKey(fx.fn), a.Src)] = true
+		fx.assumptionsUsed[hypothesisText(a.Label, fx.g.relKey(fx.fn), a.Src)] = true
 	}
+}
+
+// hypothesisText: how an assumed clause is listed in the evidence. Labels starting with "model-" are
+// assumed models of library behaviour (e.g. bytes.Buffer content); all others are side conditions
+// taken from the property statement.
+func hypothesisText(label, fn, src string) string {
+	if strings.HasPrefix(label, "model-") {
+		return fmt.Sprintf("hypothesis [%s] of %s (assumed model of a library call, not checked): %s", label, fn, src)
+	}
+	return fmt.Sprintf("hypothesis [%s] of %s (side condition of the property statement): %s", label, fn, src)
 }
